@@ -280,7 +280,7 @@ def contract_call(eng, st, site, func, args, dty):
                 nrid = rid
                 v = view[1]
                 nv = VAdt(v.ty, v.vidx, {0: (region,)}, None)
-            st.emit(("sub", rid, n, nrid, site_info(site)))
+            st.emit(("sub", rid, n, nrid, site_info(site), region.start))
             return [(st, nv)]
         if item == "bytes":
             n = args[1]
